@@ -296,6 +296,8 @@ def flatten_collaborators(tree: ast.Module, foreign: set | None = None) -> int:
                 for m_ in oc_.body:
                     if isinstance(m_, ast.FunctionDef) and m_.name == "__init__" and oc_ is not cls:
                         init_calls += [st_.value for st_ in m_.body if isinstance(st_, (ast.Assign, ast.AnnAssign)) and any(st_.value is c_ for c_ in calls)]
+            if not init_calls and len(calls) == 1:
+                init_calls = [calls[0]]  # not built in a constructor: a stateless view returned by a property (below)
             if len(init_calls) != 1:
                 continue
             call = init_calls[0]
